@@ -3,6 +3,13 @@
 import json, sys
 
 CLAIMED = {
+ "C17": dict(
+   category="exploration",
+   text="Bounded-exhaustive enumeration: 12 265 (quick) / ~95 000 (thorough) probe lists ([], [p], [p,q]; 6 selector forms x up to two probes from {condition True/False, fieldsEqual present/missing path, CEL true/false/erroring, empty probe}) are compiled by the real internal/probing.Parse and evaluated on 1 704 generated objects (generation 1/2 x 4 label sets x status absent / {} / scalar / observedGeneration absent, equal, older-or-newer, string, float x 14 shapes of status.conditions incl. malformed entries and per-condition observedGeneration x fieldsEqual operand absent/equal/different): ~21 M evaluations, each compared with a reference evaluator transcribed from the statement (success, number of failure messages = number of failing selected probes, object deep-equal before/after). Non-boolean CEL rules must be refused by Parse.",
+   design_ref="DESIGN.md §7 C17, Appendix A.4",
+   note="Non-integer observedGeneration and malformed condition entries that precede a match are undecided (either outcome accepted).",
+   technique="bounded-exhaustive input enumeration against a reference evaluator",
+   engine="explore"),
  "C11": dict(
    category="exploration",
    text="Bounded-exhaustive enumeration of phase contents: every slot kind {valid, unknown API, preset ownerReferences, foreign namespace, cluster-scoped kind without / with the owner's / with another namespace, rejected by dry run} at every position of [2 objects][1 object] phases (plus single-object, three-phase, duplicate same-phase / cross-phase / via-namespace-defaulting variants; thorough adds all [1][2][1] layouts), for owners ObjectSet, ClusterObjectSet, same-cluster ObjectSetPhase and ClusterObjectSetPhase, each in rollout (two real reconcile passes) and in teardown (objects pre-existing and controlled, owner deleted, up to four real passes). Oracle on every request of every pass: no effective write on an object of a phase that contains a preflight-violating object (none at all for duplicates in an ObjectSet), persisted Available=False/PreflightError, valid inputs are rolled out, and every effective write/delete of a namespaced owner resolves to a namespaced kind in its own namespace (judged by the store key the request hit).",
